@@ -11,6 +11,7 @@ EXTENDS YQuery, YDocGen, Json, CSV, IOUtils, SequencesExt
 
 CONSTANTS Depth2,       \* BOOLEAN: also two-segment paths
           Rich,         \* BOOLEAN: the full vocabulary (thorough) or its reduced form (quick)
+          CrashVocab,   \* BOOLEAN: add the C15 families (keyword searches, collectors, ill-formed regular expressions)
           Shard, Shards \* emit only documents whose number of nodes plus ... falls in this shard (0..Shards-1)
 
 Spec == GInit /\ [][GNext]_gvars
@@ -45,7 +46,20 @@ SearchAttr(d) == {SearchSeg(inv, op, a, t) : inv \in BOOLEAN, op \in (IF Rich TH
 SearchDesc(d) == {SearchSeg(inv, "=", a, t) : inv \in BOOLEAN, a \in (IF Rich THEN {"a.b", "a.a", "/b/a", "*"} ELSE {"a.a", "*"}), t \in {"a", "1"}}
 Stars == {Seg("MATCH_ALL", ""), Seg("TRAVERSE", "")}
 
-V1(d) == KeySegsOf(d) \cup IdxSegs \cup SliceSegs \cup AnchSegs \cup SearchDot(d) \cup SearchAttr(d) \cup SearchDesc(d) \cup Stars
+\* C15 families: segments whose selection is decided elsewhere (YKeywords) or not at all
+\* (collectors, ill-formed regular expressions); here only the outcome class matters.
+KwParams(d) == {"", "zz", "a,b", "'a", "9", "0"} \cup StrKeysOf(d)
+CrashSegs(d) == IF ~CrashVocab THEN {} ELSE
+  {KeywordSeg(inv, kw, p) : inv \in BOOLEAN, kw \in Keywords, p \in KwParams(d)}
+  \cup {SearchSeg(FALSE, "=~", a, t) : a \in {"."} \cup StrKeysOf(d), t \in {"(", "*", "[a", "a{2", "\\"}}
+  \cup {CollectorSeg(e, "") : e \in {"*", "**", "a", "[0]", "zz"}}
+CrashPairs(d) == IF ~CrashVocab THEN {} ELSE
+  {<<CollectorSeg(e1, ""), CollectorSeg(e2, o)>> : e1 \in {"*", "a", "**"}, e2 \in {"*", "a", "[0]"}, o \in {"+", "-", "&"}}
+  \cup {<<Seg("TRAVERSE", ""), Seg("TRAVERSE", "")>>, <<Seg("TRAVERSE", ""), Seg("KEY", "a"), Seg("TRAVERSE", "")>>}
+  \cup {<<s, KeywordSeg(FALSE, kw, p)>> : s \in {Seg("MATCH_ALL", ""), Seg("TRAVERSE", ""), Seg("KEY", "a"), Seg("INDEX", "0")},
+                                        kw \in {"parent", "name", "max", "unique", "has_child"}, p \in {"", "a", "2"}}
+
+V1(d) == CrashSegs(d) \cup KeySegsOf(d) \cup IdxSegs \cup SliceSegs \cup AnchSegs \cup SearchDot(d) \cup SearchAttr(d) \cup SearchDesc(d) \cup Stars
 \* reduced vocabularies for the two positions of a two-segment path
 Small(d) == IF Rich THEN
               {Seg("KEY", k) : k \in StrKeysOf(d) \cup {"0", "-1", "zz"}} \cup {Seg("INDEX", "0"), Seg("INDEX", "-1"), Seg("INDEX", "2"),
@@ -55,7 +69,7 @@ Small(d) == IF Rich THEN
               {Seg("KEY", k) : k \in StrKeysOf(d) \cup {"0", "zz"}} \cup {Seg("INDEX", "0"), Seg("INDEX", "-1"),
               Seg("SLICE", "0:2"), Seg("MATCH_ALL", ""), Seg("TRAVERSE", "")}
               \cup {SearchSeg(inv, "=", a, "1") : inv \in BOOLEAN, a \in {".", "a"}}
-Paths(d) == {<<s>> : s \in V1(d)} \cup (IF Depth2 THEN {<<s1, s2>> : s1 \in Small(d), s2 \in Small(d)} ELSE {}) \cup {<<>>}
+Paths(d) == CrashPairs(d) \cup {<<s>> : s \in V1(d)} \cup (IF Depth2 THEN {<<s1, s2>> : s1 \in Small(d), s2 \in Small(d)} ELSE {}) \cup {<<>>}
 
 (* ---- evaluation of one path ---- *)
 RECURSIVE TypesOf(_)
@@ -63,6 +77,7 @@ TypesOf(p) == IF Len(p) = 0 THEN "" ELSE p[1].ty \o (IF Len(p) > 1 THEN "+" ELSE
 Case(d, p) ==
   LET r == Sel(d, p) IN
   [dot |-> Write(p, "."), sl |-> Write(p, "/"), ty |-> TypesOf(p),
+   cx |-> [j \in 1..Len(SelectSeq(p, LAMBDA s : s.ty = "COLLECTOR")) |-> SelectSeq(p, LAMBDA s : s.ty = "COLLECTOR")[j].v],
    err |-> r.err, n |-> Len(r.res), ids |-> FlatIds(r.res), info |-> r.info, dead |-> r.dead,
    virt |-> \E j \in 1..Len(r.res) : IsVirt(r.res[j])]
 
